@@ -377,7 +377,30 @@ let run records mismatches =
                    | Ok st' -> incr transients; if nonempty u2 <> [] then incr two_attempts; Some st'
                    | Error _ -> tryv more end in
              (match tryv variants with Some st' -> Ok st' | None -> if !budget <= 0 then Error last else go_transient last rest) in
-         let go_all cs = match go "" cs with Ok s -> Ok s | Error s -> if huge then Error s else go_transient s cs in
+         (* first pass, cheap: for every cut of the attempt list the GREEDY assignment only -- every gap gets the next free block in
+            the order the real bitmap search takes them (committed blocks are the ones whose claim makes no OS call); nested retries
+            of mi_segments_page_alloc take one fresh segment per refused span attempt, so several gaps in a row are common when
+            every commit is refused.  Only when no greedy assignment explains the dump the full enumeration above is tried. *)
+         let greedy_group (g : C.where_ list) : C.where_ list =
+           let rec gg used = function
+             | (C.WSpan _ as w1) :: ((C.WSpan _ :: _) as rest) ->
+               (match L.find_opt (fun b -> not (L.mem b used)) free_blocks with
+                | Some b -> w1 :: C.WNewArena (nint b) :: gg (b :: used) rest
+                | None -> w1 :: gg used rest)
+             | w :: rest -> w :: gg used rest
+             | [] -> [] in
+           gg (L.filter_map (function C.WNewArena b -> Some (int_of_n b) | _ -> None) g) g in
+         let rec go_greedy = function
+           | [] -> None
+           | (t1, t2) :: rest ->
+             let u1 = L.map greedy_group t1 and u2 = L.map greedy_group t2 in
+             if u1 = t1 && u2 = t2 then go_greedy rest else begin
+               incr cands;
+               match try_step (C.OpAlloc (nint n, huge, commit, u1, order, u2)) expect with
+               | Ok st' -> incr transients; if nonempty u2 <> [] then incr two_attempts; Some st'
+               | Error _ -> go_greedy rest end in
+         let go_all cs = match go "" cs with Ok s -> Ok s | Error s -> if huge then Error s else
+             (match go_greedy cs with Some st' -> Ok st' | None -> go_transient s cs) in
          let show_w = function C.WSpan (b, l, _, _) -> Printf.sprintf "span %s+%s" (string_of_n b) (string_of_n l)
                              | C.WNewArena b -> "new-segment@block " ^ string_of_n b | C.WNewOs _ -> "new-os-segment" in
          finish (match go_all candidates with Ok s -> Ok s
